@@ -152,10 +152,11 @@ def check_nested(rep, F):
     e_id = strip_ref(subpat(arm["pat"], 1)).get("id")
     b = arm["body"]
     first = b["stmts"][0] if b.get("stmts") else None
-    okf = bool(first) and first["k"] == "Let" and peel(first["init"]).get("k") == "Match" and call_is(peel(peel(first["init"])["scrut"]), "Document::find")
+    finds0 = [x for x in walk(first.get("init") or {}) if call_is(x, "Document::find")] if first and first["k"] == "Let" else []
+    okf = len(finds0) == 1
     if okf:
-        fm = peel(first["init"])
-        okf = show(fm["scrut"]) == "Document::find(document, Deref::deref(s))" and q.returns_sr(q.find_arm(fm, "Option", "None")["body"], "Missing")
+        fb = q.failure_branch(b, finds0[0])
+        okf = show(finds0[0]) == "Document::find(document, Deref::deref(s))" and isinstance(fb, dict) and q.returns_sr(fb, "Missing")
     rep.check(okf, "T-NESTED", "T-NESTED/absent", arm["sp"], "value = document.find(field); absent => Missing", show(first["init"])[:100] if first else "-")
     vm = unblock(b.get("expr")) if b.get("expr") else None
     if not vm or vm.get("k") != "Match":
